@@ -762,7 +762,7 @@ impl World {
         let e = self.e[which].node;
         let name = self.xot.add_name("zzchild");
         let mut problem: Option<String> = None;
-        let kind = rng.below(9);
+        let kind = rng.below(10);
         let desc;
         // a child element that carries entries under the same keys as its parent (other values)
         let decorated = |w: &mut World, rng: &mut Rng| -> Node {
@@ -865,6 +865,24 @@ impl World {
                     t.set("tc");
                 }
                 self.xot.append_text(e, "more").map(|_| ())
+            }
+            8 => {
+                // an attribute or namespace node of the element as the reference of insert_after / insert_before: whatever the
+                // call answers, both maps stay as they are
+                let refs: Vec<Node> = self.xot.attributes(e).nodes().chain(self.xot.namespaces(e).nodes()).collect();
+                if refs.is_empty() {
+                    desc = "noop".into();
+                } else {
+                    let r = refs[rng.below(refs.len())];
+                    let c = self.xot.new_comment("zz");
+                    let after = rng.bool();
+                    desc = format!("insert_{}(attribute / namespace node of e{}, new comment)", if after { "after" } else { "before" }, which);
+                    let res = if after { self.xot.insert_after(r, c) } else { self.xot.insert_before(r, c) };
+                    if res.is_err() {
+                        let _ = self.xot.remove(c);
+                    }
+                }
+                Ok(())
             }
             _ => {
                 desc = format!("detach(e{}); put it back in front of / behind its sibling", which);
@@ -1098,8 +1116,11 @@ impl World {
 /// prefixes of one namespace (declared on the element, on an ancestor, or one each) and without prefix. Whatever the
 /// parser accepts must start life as a map: unique keys, every accessor agreeing, entries in the order written.
 fn parsed_elements_case(rng: &mut Rng, ctx: &mut Ctx) {
-    let layout = rng.below(4);
+    let layout = rng.below(6);
     let (on_root, on_el) = match layout {
+        // the same prefix (or the default namespace) declared twice on the element, with different URIs
+        4 => ("", " xmlns:p=\"u\" xmlns:q=\"u\" xmlns:p=\"w\""),
+        5 => (" xmlns:p=\"u\" xmlns:q=\"u\"", " xmlns=\"u\" xmlns=\"w\""),
         0 => (" xmlns:p=\"u\" xmlns:q=\"u\"", ""),
         1 => ("", " xmlns:p=\"u\" xmlns:q=\"u\""),
         2 => (" xmlns:p=\"u\"", " xmlns:q=\"u\""),
@@ -1174,6 +1195,16 @@ fn parsed_elements_case(rng: &mut Rng, ctx: &mut Ctx) {
         }
         if !has_dup && got != want {
             return Some(format!("entries {:?}, written {:?}", got, want));
+        }
+        // the declarations of the element: a map as well
+        let nview = xot.namespaces(a);
+        let prefixes: Vec<xot::PrefixId> = nview.keys().collect();
+        let mut seen = std::collections::HashSet::new();
+        if !prefixes.iter().all(|p| seen.insert(*p)) {
+            return Some(format!("the element starts with two declarations of one prefix: {:?}", prefixes.iter().map(|p| xot.prefix_str(*p).to_string()).collect::<Vec<_>>()));
+        }
+        if nview.len() != prefixes.len() || nview.to_hashmap().len() != prefixes.len() || nview.nodes().count() != prefixes.len() {
+            return Some("len / to_hashmap / nodes of the namespace view disagree".to_string());
         }
         None
     })
